@@ -90,7 +90,7 @@ func (m vC02Vals) expr(e ast.Expression) {
 	case *ast.FunctionLiteral:
 		if x.ParameterList != nil {
 			for _, b := range x.ParameterList.List {
-				m.expr(b.Initializer)
+				m.binding(b)
 			}
 		}
 		m.stmt(x.Body)
@@ -98,6 +98,16 @@ func (m vC02Vals) expr(e ast.Expression) {
 		for _, p := range x.Value {
 			m.expr(p)
 		}
+	case *ast.ObjectPattern:
+		for _, p := range x.Properties {
+			m.expr(p)
+		}
+		m.expr(x.Rest)
+	case *ast.ArrayPattern:
+		for _, el := range x.Elements {
+			m.expr(el)
+		}
+		m.expr(x.Rest)
 	case *ast.PropertyKeyed:
 		m.expr(x.Key)
 		m.expr(x.Value)
@@ -122,7 +132,7 @@ func (m vC02Vals) expr(e ast.Expression) {
 	case *ast.ArrowFunctionLiteral:
 		if x.ParameterList != nil {
 			for _, b := range x.ParameterList.List {
-				m.expr(b.Initializer)
+				m.binding(b)
 			}
 		}
 		switch b := x.Body.(type) {
@@ -132,6 +142,14 @@ func (m vC02Vals) expr(e ast.Expression) {
 			m.stmt(b)
 		}
 	}
+}
+
+func (m vC02Vals) binding(b *ast.Binding) {
+	if b == nil {
+		return
+	}
+	m.expr(b.Target)
+	m.expr(b.Initializer)
 }
 
 func (m vC02Vals) stmts(l []ast.Statement) {
@@ -147,11 +165,11 @@ func (m vC02Vals) stmt(s ast.Statement) {
 		m.expr(x.Expression)
 	case *ast.VariableStatement:
 		for _, b := range x.List {
-			m.expr(b.Initializer)
+			m.binding(b)
 		}
 	case *ast.LexicalDeclaration:
 		for _, b := range x.List {
-			m.expr(b.Initializer)
+			m.binding(b)
 		}
 	case *ast.BlockStatement:
 		if x != nil {
@@ -176,11 +194,11 @@ func (m vC02Vals) stmt(s ast.Statement) {
 			m.expr(in.Expression)
 		case *ast.ForLoopInitializerVarDeclList:
 			for _, b := range in.List {
-				m.expr(b.Initializer)
+				m.binding(b)
 			}
 		case *ast.ForLoopInitializerLexicalDecl:
 			for _, b := range in.LexicalDeclaration.List {
-				m.expr(b.Initializer)
+				m.binding(b)
 			}
 		}
 		m.expr(x.Test)
@@ -532,4 +550,59 @@ func H_C02_dynamic_scopes() {
 		nsym = 2
 	}
 	vC02GroupN("dyn", g, nsym)
+}
+
+
+// functions and objects: prologue variants (plain parameters, default initialisers, initialiser closures,
+// arrow functions, strict bodies), object literals vs destructuring, accessors vs data properties, labelled
+// breaks and early returns
+var vC02Fn = [][]string{
+	{
+		"(function(a, b){ return a < b ? a : b })(1001, 1002)",
+		"(function(a, b = 1002){ return a < b ? a : b })(1001)",
+		"(function(a, b = 1002){ return a < b ? a : b })(1001, undefined)",
+		"(function(a, b = (() => 1002)()){ return a < b ? a : b })(1001)",
+		"(function(a, b = 1002){ var g = function(){ return a < b ? a : b }; return g() })(1001)",
+		"(function(a){ let b = 1002; return (() => a < b ? a : b)() })(1001)",
+		"((a, b) => a < b ? a : b)(1001, 1002)",
+		"(function(a, b){ 'use strict'; return a < b ? a : b })(1001, 1002)",
+		"(function(a, b = a < 1002 ? a : 1002){ return b })(1001)",
+		"function f(a, b){ return a < b ? a : b } f(1001, 1002)",
+		"var f = function g(a, b){ return a < b ? a : b }; f(1001, 1002)",
+	},
+	{
+		"var o = {x: 1001, y: 1002}; o.x < o.y ? o.x : o.y",
+		"var {x, y} = {x: 1001, y: 1002}; x < y ? x : y",
+		"(function({x, y}){ return x < y ? x : y })({x: 1001, y: 1002})",
+		"var o = {x: 1001}; var {x, y = 1002} = o; x < y ? x : y",
+		"var o = {get x(){ return 1001 }, y: 1002}; o.x < o.y ? o.x : o.y",
+		"var x, y; ({x, y} = {x: 1001, y: 1002}); x < y ? x : y",
+		"let {x: p, y: q} = {x: 1001, y: 1002}; p < q ? p : q",
+	},
+	{
+		"var r = 0; r = 1001; r",
+		"var r = 0; l: { r = 1001; break l; r = 1002 } r",
+		"var r = 0; do { r = 1001; break; r = 1002 } while (true); r",
+		"var r = 0; (function(){ r = 1001; return; r = 1002 })(); r",
+		"var r = 0; for (;;) { r = 1001; if (r === r || r !== r) break; r = 1002 } r",
+		"var r = 0; try { r = 1001; throw 0; r = 1002 } catch (e) { } r",
+		"var r = 0; o: for (;;) { for (;;) { r = 1001; break o } } r",
+	},
+}
+
+func H_C02_functions_objects() {
+	k := vBound("FN0") + vChoice("fn", vBound("FNS"))
+	g := vC02Fn[k]
+	if vChoice("strict", 2) == 1 {
+		s := make([]string, len(g))
+		for i := range g {
+			s[i] = "'use strict'; " + g[i]
+		}
+		g = s
+	}
+	nsym := 2
+	if k == 2 {
+		nsym = 1
+	}
+	vC02GroupN("fn", g, nsym)
 }
